@@ -53,7 +53,7 @@ func (c *Contract) clauses(kind string) []*Clause {
 
 var reFuncDirective = regexp.MustCompile(`^func\s+(.+)$`)
 var reLoop = regexp.MustCompile(`^loop\s+(\d+)\s*:\s*(invariant|rangeinv|decreases|with)\s*(?:\[([A-Za-z0-9_\-]+)\])?\s+(.*)$`)
-var reAssert = regexp.MustCompile(`^(assert|lemma)\s+([A-Za-z0-9_\-]+)\s+before\s+"((?:[^"\\]|\\.)*)"\s*:\s*(.*)$`)
+var reAssert = regexp.MustCompile(`^(assert|lemma|ghost)\s+([A-Za-z0-9_\-]+)\s+before\s+"((?:[^"\\]|\\.)*)"\s*:\s*(.*)$`)
 var reClause = regexp.MustCompile(`^(requires|ensures|decreases|fmtwhen|assumes)\s*(?:\[([A-Za-z0-9_\-]+)\])?\s+(.*)$`)
 
 func funcID(name string) string {
@@ -384,6 +384,7 @@ func substExpr(e ast.Expr, repl map[*ast.CallExpr]ast.Expr) ast.Expr {
 type splice struct {
 	off  int
 	text string
+	prio int // among splices at the same offset, higher priority text comes first
 }
 
 type srcFile struct {
@@ -746,9 +747,9 @@ func (w *weaver) weave(c *Contract) {
 			case "loopdec":
 				text = fmt.Sprintf("verifspec.Decreases(func(%s) int { return %s }); ", loopParams[cl.Loop], expr)
 			}
-			sf.splices = append(sf.splices, splice{loops[cl.Loop], text})
+			sf.splices = append(sf.splices, splice{loops[cl.Loop], text, 0})
 			sf.needImport = true
-		case "assert", "lemma":
+		case "assert", "lemma", "ghost":
 			off := -1
 			ast.Inspect(fd.Body, func(m ast.Node) bool {
 				if off >= 0 {
@@ -773,7 +774,13 @@ func (w *weaver) weave(c *Contract) {
 			if cl.Kind == "lemma" {
 				text = fmt.Sprintf("verifspec.Lemma(func() { %s }); ", expr)
 			}
-			sf.splices = append(sf.splices, splice{off, text})
+			prio := 0
+			if cl.Kind == "ghost" {
+				// ghost <name> before "anchor": <expr>   declares a ghost snapshot variable
+				text = fmt.Sprintf("%s := %s; _ = %s; ", cl.Label, cl.Expr, cl.Label)
+				prio = 1
+			}
+			sf.splices = append(sf.splices, splice{off, text, prio})
 			sf.needImport = true
 		}
 	}
@@ -796,7 +803,7 @@ func (w *weaver) weave(c *Contract) {
 		for _, p := range vnames {
 			text += fmt.Sprintf(" %s__old := %s; _ = %s__old;", p, p, p)
 		}
-		sf.splices = append(sf.splices, splice{sf.fset.Position(fd.Body.Lbrace).Offset + 1, text})
+		sf.splices = append(sf.splices, splice{sf.fset.Position(fd.Body.Lbrace).Offset + 1, text, 2})
 	}
 }
 
@@ -808,7 +815,12 @@ func (w *weaver) overlay() map[string][]byte {
 			continue
 		}
 		sp := append([]splice(nil), sf.splices...)
-		sort.SliceStable(sp, func(i, j int) bool { return sp[i].off > sp[j].off })
+		sort.SliceStable(sp, func(i, j int) bool {
+			if sp[i].off != sp[j].off {
+				return sp[i].off > sp[j].off
+			}
+			return sp[i].prio < sp[j].prio // applied later = ends up first
+		})
 		src := append([]byte(nil), sf.src...)
 		for _, s := range sp {
 			src = append(src[:s.off], append([]byte(s.text), src[s.off:]...)...)
